@@ -181,6 +181,12 @@ pub fn render_frag(r: &R, fr: FnRef, sel: &str, header: &str) -> Result<(String,
             let argi: usize = arg.trim().parse().map_err(|_| "bad arg index")?;
             let mut cf = CallFinder { name: callee.clone(), hits: vec![] };
             cf.visit_block(block);
+            // ordinals follow source order of the callee name (not the nesting order of method chains)
+            cf.hits.sort_by_key(|e| match e {
+                Expr::MethodCall(m) => m.method.span().byte_range().start,
+                Expr::Call(c) => c.func.span().byte_range().end,
+                _ => 0,
+            });
             let call = cf.hits.get(ord).ok_or_else(|| format!("lost anchor: call `{}`#{} not found ({} hits)", callee, ord, cf.hits.len()))?;
             let args: Vec<&Expr> = match call {
                 Expr::MethodCall(m) => m.args.iter().collect(),
